@@ -228,6 +228,7 @@ type tapeRec struct{ tapes [][]uint32 }
 
 func execute(c Case, rec *tapeRec) batch.Result {
 	dir := caseDir(&c)
+	defer batch.LockModDir(dir)()
 	defer os.RemoveAll(dir)
 	defer verifhook.Forget()
 	res := batch.Result{Counters: map[string]int{}}
